@@ -32,6 +32,7 @@ from .tupleproto import resolve
 
 OBJ_MUT = re.compile(r"^(set_|reset|subtract_|low_pass$|high_pass$|add_|register|remove_)")
 LIST_MUT = {"clear", "append", "extend", "insert", "remove", "pop", "popitem", "update", "sort", "reverse", "setdefault"}
+ALIASING_WHEN_UNMASKED = {"get_impedances"}
 COPYING = {"deepcopy", "copy", "get_values", "get_lower_limits", "get_upper_limits", "are_fixed", "get_mask", "to_dict", "to_string", "serialize", "get_label", "get_path",
            "get_name", "get_symbol", "get_units", "get_default_values", "get_num_points", "get_frequencies", "get_magnitudes", "get_phases", "to_dataframe", "to_sympy", "to_latex",
            "len", "str", "repr", "float", "int", "bool", "isinstance", "type", "id", "hash", "simulate_spectrum",
@@ -57,6 +58,8 @@ class _Kinds:
         self.fn = fn
         self.k: Dict[str, Set[str]] = {param: {kind}}
         self.sites: Dict[str, List[Tuple[int, str]]] = {param: [(0, kind)]}      # (line of the binding, kind)
+        self.arrays: Set[int] = set()
+        self.from_call: Dict[str, bool] = {}      # name -> every live binding of it is the result of a call / subscript (not a plain attribute)
         self.loops: List[Tuple[int, int]] = [(n.lineno, n.end_lineno or n.lineno) for n in ast.walk(fn) if isinstance(n, (ast.For, ast.While))]
         changed = True
         rounds = 0
@@ -70,6 +73,8 @@ class _Kinds:
                     for t in (n.targets if isinstance(n, ast.Assign) else [n.target]):
                         if isinstance(t, ast.Name):
                             binds.append((t.id, kv))
+                            if kv.split(":")[-1] == PART:
+                                self.from_call[t.id] = self.from_call.get(t.id, True) and isinstance(n.value, (ast.Call, ast.Subscript))
                         elif isinstance(t, (ast.Tuple, ast.List)):
                             # unpacking a bag (or a tuple that came out of one) yields parts; unpacking a part yields parts
                             for x in ast.walk(t):
@@ -119,7 +124,36 @@ class _Kinds:
         if isinstance(node, ast.Call):
             f = node.func
             fname = f.id if isinstance(f, ast.Name) else (f.attr if isinstance(f, ast.Attribute) else "")
+            if fname in ALIASING_WHEN_UNMASKED and isinstance(f, ast.Attribute):
+                # DataSet.get_impedances(masked=None) hands out the data set's own array (no copy is made on that branch)
+                unmasked = any(kw.arg == "masked" and isinstance(kw.value, ast.Constant) and kw.value.value is None for kw in node.keywords) or \
+                    (node.args and isinstance(node.args[0], ast.Constant) and node.args[0].value is None)
+                base = self.of(f.value)
+                if unmasked and base.split(":")[-1] == PART:
+                    self.arrays.add(id(node))
+                    return base
+                return FRESH
             if fname in COPYING:
+                return FRESH
+            if isinstance(f, ast.Name) and fname in ("map", "filter") and len(node.args) >= 2 and isinstance(node.args[0], ast.Lambda) and len(node.args[0].args.args) == 1:
+                src = self.of(node.args[1])
+                if src.split(":")[-1] not in (PART, BAG):
+                    return FRESH
+                if fname == "filter":
+                    return ("mixed:" if src.startswith("mixed:") else "") + BAG
+                lam = node.args[0]
+                pname = lam.args.args[0].arg
+                saved = self.sites.get(pname)
+                self.sites[pname] = [(0, PART)]
+                try:
+                    body = self.of(lam.body)
+                finally:
+                    if saved is None:
+                        self.sites.pop(pname, None)
+                    else:
+                        self.sites[pname] = saved
+                if body.split(":")[-1] in (PART, BAG):
+                    return ("mixed:" if src.startswith("mixed:") or body.startswith("mixed:") else "") + BAG
                 return FRESH
             if isinstance(f, ast.Attribute):
                 base = self.of(f.value)
@@ -186,6 +220,15 @@ def may_modify(module: str, fn: ast.FunctionDef, param: str, kind: str = PART, d
             k = K.of(n.target.value)
             if k.split(":")[-1] == PART:
                 report(k, f"{fn.name}: updates {ast.unparse(n.target)[:50]} in place at L{n.lineno}")
+        if isinstance(n, ast.AugAssign) and isinstance(n.target, ast.Name):
+            # `Z += ...` on a name bound to a live array of the input (taken out of a getter or a list of such) updates that array
+            k = K.name(n.target.id, n.lineno)
+            if k.split(":")[-1] == PART:
+                text = f"{fn.name}: updates {n.target.id} in place at L{n.lineno} (the name is bound to a live part of the input)"
+                if K.from_call.get(n.target.id) and not k.startswith("mixed:"):
+                    definite.append(text)
+                else:
+                    possible.append(text)
         if not isinstance(n, ast.Call):
             continue
         f = n.func
@@ -252,6 +295,30 @@ ENTRY_POINTS = [
     ("analysis/kramers_kronig/single", "perform_kramers_kronig_test", ["data"]),
     ("analysis/fitting", "fit_circuit", ["data", "circuit"]),
 ]
+
+
+DATA_SET_CONSTRUCTORS = [("data/data_set", "DataSet.average", [("data_sets", BAG)]), ("data/data_set", "DataSet.duplicate", [("data", PART)])]
+
+
+def target_data_set_constructors():
+    """DataSet.average / DataSet.duplicate build a NEW data set: the data sets they are given are left as they were (no mutating
+    call, no store, no in-place update of an array taken out of them reaches them)"""
+    def run(sess: Session):
+        n = 0
+        for module, qual, params in DATA_SET_CONSTRUCTORS:
+            fn = core.find_def(module, qual)
+            for p, kind in params:
+                n += 1
+                why, maybe = may_modify(module, fn, p, kind)
+                ob = sess.check("frame", [], z3.BoolVal(not why), fn.lineno, label=f"{qual}: the caller's `{p}` is not modified")
+                if why:
+                    ob.detail = "; ".join(why[:4])
+                    ob.formula = ob.detail
+                elif maybe:
+                    sess.unsupported(f"{qual}: cannot decide whether `{p}` is modified: " + "; ".join(maybe[:3]), fn.lineno)
+        sess.check("cover", [], z3.BoolVal(n >= 2), 0, label=f"(constructor, input) pairs: {n}")
+        sess.assumptions.append("numpy functions (array, mean, ...) return new arrays and do not modify their arguments")
+    return ("data/data_set:DataSet.average / duplicate leave their inputs alone", "data/data_set", "DataSet.average", run)
 
 
 def target_inputs_not_modified():
